@@ -90,7 +90,7 @@ class G:
                 return N(r.choice(vs))
             if r.random() < 0.08:       # beyond ASCII / longer than the 20 characters a report shows
                 return St(r.choice(["\u00e9", "a\u00f1b", "abcdefghijklmnopqrstuvwxy", "\u65e5\u672c"]))
-            return St(r.choice(["", "a", "ab", "xyz"]))
+            return St(r.choice(["", "a", "ab", "xyz", "5%d", "%"]))
         if c < 0.55:
             return bin_("+", s.eS(ctx, d - 1), s.eS(ctx, d - 1))
         if c < 0.8:
@@ -272,7 +272,7 @@ def random_sessions(n, seed, tag, p_ill=0.0, first_id=1):
 # ----------------------------------------------------------------- expressions x contexts (C12 / C01)
 
 PRELUDE = [assign("x", I(1)), assign("a", lst([I(1), I(2), I(3)])), assign("f", fn(["n"], bin_("+", N("n"), I(1)))),
-           assign("id", fn(["v"], N("v")))]
+           assign("id", fn(["v"], N("v"))), assign("sv", St("vw"))]
 ATOMS = [I(2), N("x"), Fl(3, 1), St("a"), lst([I(1), I(2)]), call("f", I(1)), N("u"), Bo(True), N("a")]
 OPS10 = ["+", "-", "*", "/", "%", "==", "<", "&", "|", "<<"]
 
@@ -380,6 +380,17 @@ def exprs_deep():
                 out.append(bin_("+", bin_(op1, l, X), I(1)))
                 out.append(bin_("+", I(1), bin_(op1, l, bin_("*", I(1), X))))
                 out.append(bin_(op1, l, bin_("-", I(50), X)))
+    # operators whose operand ORDER matters (concatenation of strings and of arrays): a leaf to the left of a compound operand, to the
+    # right of one, right-nested and left-nested chains, mixed with comparisons
+    sl = [St("p"), N("sv"), call("toa", x)]
+    al = [lst([I(7)]), a, lst([x, I(2)])]
+    sc = [bin_("+", St("q"), St("r")), bin_("+", N("sv"), St("t")), bin_("+", call("toa", x), St("u"))]
+    ac = [bin_("+", lst([I(8)]), lst([I(9)])), bin_("+", a, lst([x])), bin_("+", lst([x]), a)]
+    for leaves, comps in ((sl, sc), (al, ac)):
+        for l in leaves:
+            for c in comps:
+                out += [bin_("+", l, c), bin_("+", c, l), bin_("+", l, bin_("+", l, c)), bin_("+", bin_("+", l, c), l), bin_("==", bin_("+", l, c), bin_("+", c, l)),
+                        bin_("+", l, bin_("+", c, c)), un("#", bin_("+", l, c)), ix2(bin_("+", l, c), I(0), I(2))]
     return out
 
 
